@@ -16,7 +16,9 @@ MODULE = 'Props.C13'
 THEOREMS = ['Vakt.C13.eq_iff_canon', 'Vakt.C13.eq_iff_fields', 'Vakt.C13.eqv_equivalence', 'Vakt.C13.eq_hash',
             'Vakt.C13.key_order_irrelevant', 'Vakt.C13.canon_congr', 'Vakt.C13.type_distinctions',
             'Vakt.C13.one_point_distinct', 'Vakt.C13.extra_key_distinct', 'Vakt.C13.norm_falsy',
-            'Vakt.C13.empty_forms_equal', 'Vakt.sortKV_perm_eq']
+            'Vakt.C13.empty_forms_equal', 'Vakt.sortKV_perm_eq',
+            'Vakt.C13.inquiry_roundtrip', 'Vakt.C13.inquiry_roundtrip_equal', 'Vakt.C13.inquiry_unknown_key_refused']
+EXTRA_IMPORTS = ['Props.C13Json']
 FLOOR = {'quick': 500, 'thorough': 10000}
 ASSUMPTIONS = ['that CPython\'s hash of a tuple of ints does not depend on PYTHONHASHSEED is a runtime fact, observed by '
                'recomputing every hash in fresh interpreters with different seeds, not proved',
